@@ -91,7 +91,9 @@ class _SiteFlow(MustFlow):
             if isinstance(t, ast.Attribute) and isinstance(t.value, ast.Name):
                 for f in list(state):
                     if f[0] == 'need' and f[1] == t.value.id and f[2] == t.attr:
-                        if ntext(node.value) == '%s.%s' % (f[3], t.attr):
+                        from .common import expand_locals
+                        val = ntext(expand_locals(self.fi.node, node.value))      # src = constr.support; x.support = src
+                        if val == '%s.%s' % (f[3], t.attr):
                             state = state | {('set', f[1], f[2], f[4])}
         return state
 
